@@ -101,7 +101,38 @@ def roundtrip(cfg: dict, stmts: list, readers=("flat", "to_graph", "sink_parse",
     broken = monitors.take_broken()
     if broken:
         return {"clause": "contract", "summary": str(broken[0]), "contracts": broken}
+    other = _OTHER[0]
+    if other is not None and "flat" in readers:
+        # the file read back WHILE another Jelly file (the previous case's bytes) is being read in the same process:
+        # two parse_jelly_flat generators advanced alternately
+        import io
+        from pyjelly.integrations.generic import parse as gparse
+        try:
+            a, b = gparse.parse_jelly_flat(io.BytesIO(data)), gparse.parse_jelly_flat(io.BytesIO(other))
+            got_a = []
+            a_live = b_live = True
+            while a_live or b_live:
+                if a_live:
+                    x = next(a, None)
+                    if x is None:
+                        a_live = False
+                    else:
+                        got_a.append(T.event_from_generic(x))
+                if b_live and next(b, None) is None:
+                    b_live = False
+            got = [T.norm_stmt(e[1]) for e in got_a if e[0] == "stmt"]
+        except Exception as e:  # noqa: BLE001
+            return {"clause": "parser-raised", "reader": "flat-lockstep", "other_bytes": other.hex(), "bytes": data.hex(),
+                    "summary": f"flat, in lockstep with another parse: {type(e).__name__}: {e}"}
+        if got != want:
+            i = next((k for k, (x, y) in enumerate(zip(got, want)) if x != y), min(len(got), len(want)))
+            return {"clause": "roundtrip-differs", "reader": "flat-lockstep", "other_bytes": other.hex(), "bytes": data.hex(),
+                    "summary": f"flat, read in lockstep with another Jelly file: len out={len(got)} in={len(want)}, first difference at {i}: "
+                               f"out={got[i] if i < len(got) else None} in={want[i] if i < len(want) else None}"}
     return {"ok": True, "data": data}  # type: ignore[return-value]
+
+
+_OTHER: list = [None]
 
 
 def _check(cfg, stmts):
@@ -170,6 +201,10 @@ def run_shard(ctx):
                 cfg["preset"] = (max(n, 8), max(p, 1) if p else 0, d)
                 ctx.observe("sinks-with-declared-namespaces")
         r = roundtrip(cfg, stmts)
+        if r.get("ok") and len(r["data"]) < 20000:
+            if _OTHER[0] is not None:
+                ctx.observe("read-back-in-lockstep-with-another-parse")
+            _OTHER[0] = r["data"]
         ctx.observe("roundtrips-compared")
         ctx.observe(f"entry:{cfg['entry']}")
         ctx.observe(f"physical:{cfg['physical']}")
@@ -211,6 +246,7 @@ def replay(w: dict):
     cfg = w["cfg"]
     cfg["preset"] = tuple(cfg["preset"])
     stmts = list(T.from_json(w["stmts"]))
+    _OTHER[0] = bytes.fromhex(w["other_bytes"]) if w.get("other_bytes") else None
     return _check(cfg, stmts)
 
 
